@@ -15,11 +15,19 @@ Tie to /repo (C, hand-written model + correspondence):
     rows), BroadcastOperator, ReductionOperator, DiagonalOperator (also aliased),
     ComponentProjection, ComponentProjectionAdjoint with random trees as blocks vs the model.
 Oracle (independent of the model): every concrete Operator/Functional class reachable from
-odl.* (introspection + constructor table; adjoint/derivative/inverse/gradient/proximal/
-convex_conj of every instance one level deep): op(x) in range; op(x, out=y) is y and equals
-op(x) for NaN / inf / garbage prefilled y; x bitwise unchanged; (op + v)(x) does not write x;
-non-castable x -> OpDomainError, foreign out -> OpRangeError, out with a functional ->
-TypeError.  Classes without a constructor are listed in the evidence (skipped_classes).
+odl.* (introspection + constructor table, plus instances of function-local classes such as
+SimpleFunctional; adjoint/derivative/inverse/gradient/proximal/convex_conj of every instance TWO
+levels deep): op(x) in range; a second op(x) gives the same result; op(x, out=y) is y and equals
+op(x) for NaN / inf / garbage prefilled y; x bitwise unchanged; five expression classes around the
+instance do not write x; an ndarray passed as x is not written; whatever the DOMAIN ITSELF refuses
+to convert (20 kinds: wrong length/nesting/type, overflowing, None, dict, element of another
+space ...) -> OpDomainError, also together with a bad out; near-miss outs (other dtype /
+weighting / space kind / ndarray / list / component) -> OpRangeError; out with a functional ->
+TypeError.  A class counts as tested only after one successful op(x); op(x) raising on a valid
+input is a violation, except NotImplementedError of classes without a `_call` (listed) and
+ValueError off the positive orthant when the positive draw succeeds (listed).  Callables passed
+to a discretised space execute user code and are not "malformed data".  Classes without a
+constructor are listed in the evidence (skipped_classes).
 """
 import importlib
 import inspect
@@ -46,8 +54,17 @@ ASSUMPTIONS = ['leaf operator classes without an executable model are opaque: th
                'out, no write to x) is established for them on sampled inputs only (a test)',
                'of the membership checks of the inner calls made by expression classes only the '
                'rejection of out by a functional is modelled (constructors enforce matching spaces)',
-               'identity aliasing only; IEEE rounding outside the model (comparison of in-place '
-               'and out-of-place results with 1e-9 relative tolerance)']
+               'identity aliasing only; IEEE rounding outside the model (in-place vs out-of-place on '
+               'the real code: 1e-9 relative; model vs code on trees / block matrices: 1e-12 '
+               'relative; dispatch stream: bitwise)',
+               'the input cast is modelled as a copy (castable -> new object); rn(n).element(ndarray) '
+               'wraps without copying: equivalent as long as no body writes its input, which the '
+               'ndarray-input oracle tests; range membership / castability are tags of the model '
+               '(XArg, OArg, Leaf.junk), tied to Operator.__call__ by the dispatch stream only',
+               'ReductionOperator / BroadcastOperator are mapped to the block-matrix model directly: '
+               'their wrapping of x / out into a 1-tuple without copying is not modelled; '
+               'ComponentProjection with a list index and ZeroOperator with domain != range have no '
+               'model branch (zoo only)']
 
 
 def bits(x):
@@ -152,6 +169,90 @@ def is_field(s):
 def snapshot(x):
     a = flat(x)
     return a.copy()
+
+
+def enc_vals(a):
+    """JSON-able exact encoding of a flat array (floats as hex strings, complex as pairs)."""
+    a = np.asarray(a).ravel()
+    if np.iscomplexobj(a):
+        return {'c': [[float(v.real).hex(), float(v.imag).hex()] for v in a.tolist()]}
+    if a.dtype.kind in 'iub':
+        return {'i': [int(v) for v in a.tolist()], 'dt': str(a.dtype)}
+    return {'f': [float(v).hex() for v in a.tolist()]}
+
+
+def dec_vals(d):
+    if 'c' in d:
+        return np.array([complex(float.fromhex(r), float.fromhex(i)) for r, i in d['c']])
+    if 'i' in d:
+        return np.array(d['i'], dtype=d.get('dt', 'int64'))
+    return np.array([float.fromhex(v) for v in d['f']])
+
+
+def elem_from_flat(space, vals):
+    """Inverse of `flat`: rebuild an element (or scalar) of `space` from its flat values."""
+    import odl
+    vals = np.asarray(vals)
+    if isinstance(space, odl.ProductSpace):
+        parts, k = [], 0
+        for sp in space:
+            n = int(np.prod(sp.shape)) if not isinstance(sp, odl.ProductSpace) else \
+                len(flat(sp.zero()))
+            parts.append(elem_from_flat(sp, vals[k:k + n]))
+            k += n
+        return space.element(parts)
+    if is_field(space):
+        v = vals.ravel()[0]
+        return complex(v) if isinstance(space, odl.ComplexNumbers) else float(np.real(v))
+    return space.element(np.array(vals).astype(space.dtype).reshape(space.shape))
+
+
+def malformed_inputs(domain, rng):
+    """Candidates for `x` that may not be convertible. Whether one IS malformed is decided by
+    the space itself (`domain.element(c)` raises), independently of `Operator.__call__`."""
+    import odl
+    cands = [('object', object()), ('str', 'not-an-element'), ('none-list', [None, 1, 2]),
+             ('dict', {'a': 1}), ('short-list', [1.0]), ('long-list', list(range(1, 40))),
+             ('nested', [[1, 2], [3]]), ('non-numeric', [1, 'a', 3]),
+             ('overflow-int', [10 ** 400, 1, 2]), ('inf-list', [float('inf'), 1, 2]),
+             ('bytes', b'abc'), ('lambda', lambda t: t), ('other-space', odl.rn(23).one()),
+             ('other-nd', odl.rn((5, 7)).one()), ('str-array', np.array(['a', 'b', 'c'])),
+             ('set', {1, 2, 3})]
+    shape = getattr(domain, 'shape', None)
+    if shape:
+        n = int(np.prod(shape))
+        cands += [('overflow-fit', [10 ** 400] + [1] * (n - 1)),
+                  ('inf-fit', np.array([float('inf')] + [1.0] * (n - 1)).reshape(shape).tolist()),
+                  ('off-by-one', np.zeros(n + 1)), ('wrong-axes', np.zeros(tuple(shape) + (1, 2)))]
+    rng.shuffle(cands)
+    return cands
+
+
+def near_miss_outs(rng_space, rng):
+    """Objects that look like range elements but are not (`obj in range` is False)."""
+    import odl
+    cands = [('rn17', odl.rn(17).one())]
+    shape = getattr(rng_space, 'shape', None)
+    if shape is not None and not isinstance(rng_space, odl.ProductSpace):
+        cands.append(('ndarray', np.zeros(shape)))
+        cands.append(('list', np.zeros(shape).tolist()))
+        for dt in ('float32', 'complex128', 'int64'):
+            try:
+                other = rng_space.astype(dt)
+                if other != rng_space:
+                    cands.append(('astype-' + dt, other.zero()))
+            except Exception:
+                pass
+        try:
+            cands.append(('other-weighting', odl.rn(shape, weighting=3.0).zero()))
+            cands.append(('tensor-not-discr', odl.rn(shape).zero()))
+        except Exception:
+            pass
+    elif isinstance(rng_space, odl.ProductSpace) and len(rng_space) > 0:
+        cands.append(('component', rng_space[0].zero()))
+        cands.append(('longer-power', odl.ProductSpace(rng_space[0], len(rng_space) + 1).zero()))
+    rng.shuffle(cands)
+    return cands
 
 
 # ---------------------------------------------------------------------------
@@ -487,16 +588,22 @@ def safe_call(op, x, **kw):
         return Outcome(errkind(e) + ':' + str(e)[:80])
 
 
-def check_instance(ctx, label, op, rng, deep=False):
-    """The C03 oracle on one operator instance. Returns True if evaluated non-trivially."""
+def check_instance(ctx, label, op, rng, deep=False, fixed=None):
+    """The C03 oracle on one operator instance. Returns (non-trivial, evaluated at least once).
+    `fixed` = {'x': enc_vals(...)} replays exactly one recorded input."""
     import odl
     problems = []
     nontrivial = False
+    evaluated = False
     draws = [False, True, 'zero'] if not deep else [False, True, 'zero', False, True, 'small']
+    if fixed is not None:
+        draws = ['fixed']
     functional = is_field(op.range)
     for positive in draws:
         try:
-            if positive in ('zero', 'small'):
+            if positive == 'fixed':
+                x = elem_from_flat(op.domain, dec_vals(fixed['x']))
+            elif positive in ('zero', 'small'):
                 # the zero / a tiny element: reaches the `set_zero` / degenerate branches
                 x = rand_elem(op.domain, rng, False)
                 if hasattr(x, 'space'):
@@ -509,14 +616,29 @@ def check_instance(ctx, label, op, rng, deep=False):
                 x = rand_elem(op.domain, rng, positive)
         except Exception as e:  # noqa
             ctx.extra.setdefault('no_input_generator', {})[label] = str(e)[:80]
-            return False
+            return False, False
         x0 = snapshot(x)
         ref = safe_call(op, x)
-        xdesc = [complex(v) if np.iscomplexobj(x0) else float(v) for v in x0[:12]]
+        xdesc = enc_vals(x0)
         if ref.status != 'ok':
-            ctx.err(ref.status.split(':')[1])
-            # cannot evaluate here (e.g. NotImplementedError): in-place must not "succeed" either
+            ctx.err(':'.join(ref.status.split(':')[1:3]))
+            if 'NotImplementedError' in ref.status:
+                # the class has no `_call` implementation (abstract placeholder such as the
+                # default convex conjugate): documented, listed as not evaluable
+                ctx.extra.setdefault('not_evaluable(no _call implementation)', {})[label] = \
+                    ref.status[:90]
+            elif ref.status.startswith('err:value') and positive in (False, 'zero', 'small'):
+                # ValueError off the positive orthant: a documented restriction of the domain of
+                # definition (e.g. the KL cross-entropy gradient for non-positive input); it is a
+                # violation only if the positive draw fails too (handled by the branch below)
+                ctx.extra.setdefault('restricted_domain(ValueError for non-positive input)',
+                                     {})[label] = ref.status[:90]
+            else:
+                # a valid domain element on which op(x) raises is inside the quantifier
+                problems.append(('raises-on-valid-input',
+                                 'op(x) raises {} on a domain element'.format(ref.status), xdesc))
             continue
+        evaluated = True
         if not (ref.obj in op.range):
             problems.append(('result-in-range', 'op(x) is not an element of op.range', xdesc))
         if not bitsame(snapshot(x), x0):
@@ -605,22 +727,77 @@ def check_instance(ctx, label, op, rng, deep=False):
                     elif np.all(np.isfinite(ref.val)) and not same(o.val, expect(ref.val)):
                         problems.append((wname + '-value', '{}(op, ..)(x) has the wrong value'
                                          .format(type(wop).__name__), xdesc))
-        # malformed input
-        bad_x = object()
-        o = safe_call(op, bad_x)
-        if not o.status.startswith('err:domain'):
-            problems.append(('malformed-x', 'op(object()) gave {} instead of OpDomainError'
-                             .format(o.status), None))
-        if not functional:
-            foreign = odl.rn(17).one()
-            o = safe_call(op, x, out=foreign)
-            if not o.status.startswith('err:range'):
-                problems.append(('foreign-out', 'op(x, out=<rn(17) element>) gave {} instead of '
-                                 'OpRangeError'.format(o.status), xdesc))
-            o = safe_call(op, bad_x, out=foreign)
+        # an ndarray (not an element) as input: `domain.element(arr)` WRAPS the array without
+        # copying, so the bodies see the caller's memory; it must stay untouched as well
+        if hasattr(x, 'asarray') and not isinstance(op.domain, odl.ProductSpace):
+            arr = np.array(x.asarray())
+            a0 = arr.copy()
+            o = safe_call(op, arr)
+            if o.status != 'ok' or not same(o.val[np.isfinite(ref.val)] if o.val.shape ==
+                                            ref.val.shape and ref.val.dtype.kind in 'fc'
+                                            else o.val, ref.val[np.isfinite(ref.val)]
+                                            if ref.val.dtype.kind in 'fc' else ref.val):
+                problems.append(('ndarray-input', 'op(ndarray) gives {} instead of op(x)'.format(
+                    o.status if o.status != 'ok' else o.val[:4]), xdesc))
+            if not bitsame(arr, a0):
+                problems.append(('ndarray-input-unchanged', 'op(ndarray) wrote into the array',
+                                 xdesc))
+            if not functional:
+                try:
+                    y = filled(op.range, 'nan', rng)
+                    o = safe_call(op, arr, out=y)
+                    if o.status == 'ok' and not bitsame(arr, a0):
+                        problems.append(('ndarray-input-unchanged',
+                                         'op(ndarray, out=y) wrote into the array', xdesc))
+                except Exception:
+                    pass
+        # malformed input: whatever the domain itself refuses to convert must be rejected with
+        # OpDomainError, also when `out` is bad as well (priority of the checks)
+        n_mal = 0
+        for mname, cand in malformed_inputs(op.domain, rng):
+            if callable(cand) and hasattr(op.domain, 'partition'):
+                # a discretised space SAMPLES a callable: exceptions raised while executing the
+                # user's function propagate unchanged; that is not "malformed data"
+                continue
+            try:
+                if cand in op.domain:
+                    continue
+                op.domain.element(cand)
+                continue            # convertible: not malformed for this domain
+            except Exception:
+                pass
+            n_mal += 1
+            o = safe_call(op, cand)
             if not o.status.startswith('err:domain'):
-                problems.append(('malformed-both', 'op(object(), out=foreign) gave {} instead of '
-                                 'OpDomainError'.format(o.status), None))
+                problems.append(('malformed-x kind=' + mname,
+                                 'op(<{}>) gave {} instead of OpDomainError'.format(mname, o.status),
+                                 None))
+            if not functional:
+                o = safe_call(op, cand, out=odl.rn(17).one())
+                if not o.status.startswith('err:domain'):
+                    problems.append(('malformed-both kind=' + mname,
+                                     'op(<{}>, out=foreign) gave {} instead of OpDomainError'
+                                     .format(mname, o.status), None))
+            ctx.hit('malformed/' + mname)
+            if n_mal >= (4 if not deep else 40):
+                break
+        if not functional:
+            n_out = 0
+            for oname, cand in near_miss_outs(op.range, rng):
+                try:
+                    if cand in op.range:
+                        continue
+                except Exception:
+                    pass
+                n_out += 1
+                o = safe_call(op, x, out=cand)
+                if not o.status.startswith('err:range'):
+                    problems.append(('foreign-out kind=' + oname,
+                                     'op(x, out=<{}>) gave {} instead of OpRangeError'.format(
+                                         oname, o.status), xdesc))
+                ctx.hit('foreign-out/' + oname)
+                if n_out >= (3 if not deep else 20):
+                    break
             if not bitsame(snapshot(x), x0):
                 problems.append(('input-unchanged-rejected', 'x modified by a rejected call', xdesc))
     seen = set()
@@ -629,8 +806,8 @@ def check_instance(ctx, label, op, rng, deep=False):
             continue
         seen.add(check)
         ctx.violation('zoo {} check={}'.format(label, check), what,
-                      {'kind': 'zoo', 'label': label, 'check': check, 'x': str(xdesc)})
-    return nontrivial
+                      {'kind': 'zoo', 'label': label, 'check': check, 'x': xdesc})
+    return nontrivial, evaluated
 
 
 def zoo_instances(ctx):
@@ -656,12 +833,70 @@ def zoo_instances(ctx):
     ctx.extra['classes_found'] = len(classes)
 
 
-def run_zoo(ctx, deep=False):
+def extra_instances():
+    """Instances of classes that are defined inside functions (not reachable by module
+    introspection) and not derived from a listed instance."""
     import odl
+    from odl.solvers.functional.functional import simple_functional
+    r3 = odl.rn(3)
+    return [
+        ('SimpleFunctional', 'full', lambda: simple_functional(
+            r3, fcall=lambda x: x.norm() ** 2, grad=lambda x: 2 * x,
+            prox=lambda sigma: odl.ScalingOperator(r3, 1 / (1 + 2 * sigma)),
+            convex_conj_fcall=lambda x: x.norm() ** 2 / 4, convex_conj_grad=lambda x: x / 2)),
+        ('SimpleFunctional', 'opgrad', lambda: simple_functional(
+            r3, fcall=lambda x: x.inner(x), grad=odl.ScalingOperator(r3, 2.0))),
+    ]
+
+
+def derivation_point(label, op):
+    """Deterministic point for `derivative(x)` (depends on the label only, so that a derived
+    operator can be rebuilt exactly by `replay`)."""
+    import hashlib
+    import random
+    r = random.Random(hashlib.sha256(label.encode()).digest())
+    return rand_elem(op.domain, r, True)
+
+
+def reach(label, op, levels):
+    """(label, operator) for the instance and the operators derived from it, `levels` deep."""
+    out = [(label, op, 0)]
+    frontier = [(label, op)]
+    for lev in range(1, levels + 1):
+        nxt = []
+        for lab, o in frontier:
+            try:
+                xs = derivation_point(lab, o)
+            except Exception:
+                continue
+            for attr, d in derived_ops(o, xs):
+                dl = '{}.{}'.format(lab, attr)
+                out.append((dl, d, lev))
+                nxt.append((dl, d))
+        frontier = nxt
+    return out
+
+
+MODELLED = ('OperatorSum', 'OperatorVectorSum', 'OperatorComp', 'OperatorPointwiseProduct',
+            'OperatorLeftScalarMult', 'OperatorRightScalarMult', 'OperatorLeftVectorMult',
+            'OperatorRightVectorMult', 'FunctionalLeftVectorMult', 'ProductSpaceOperator',
+            'BroadcastOperator', 'ReductionOperator', 'DiagonalOperator', 'ComponentProjection',
+            'ComponentProjectionAdjoint', 'ScalingOperator', 'IdentityOperator', 'ConstantOperator',
+            'MultiplyOperator', 'PowerOperator', 'ZeroOperator', 'InnerProductOperator')
+
+
+def all_instances(ctx):
+    for name, vname, thunk in zoo_instances(ctx):
+        yield name, vname, thunk
+    for name, vname, thunk in extra_instances():
+        yield name, vname, thunk
+
+
+def run_zoo(ctx, deep=False):
     rng = ctx.rng
     not_constructible = {}
-    tested = set()
-    for name, vname, thunk in zoo_instances(ctx):
+    evaluated_cls, never_cls, n_inst, n_never = set(), set(), 0, 0
+    for name, vname, thunk in all_instances(ctx):
         label = '{}[{}]'.format(name, vname)
         try:
             with warnings.catch_warnings():
@@ -670,52 +905,41 @@ def run_zoo(ctx, deep=False):
         except Exception as e:  # missing back-end or the like
             not_constructible[label] = '{}: {}'.format(type(e).__name__, str(e)[:80])
             continue
-        if type(op).__name__ != name and name not in ('IdentityOperator',):
-            # constructor produced another class (e.g. simplification); still test it
-            pass
-        nt = check_instance(ctx, label, op, rng, deep)
-        ctx.case(('zoo', label) if nt else None)
-        ctx.hit('zoo/' + name)
-        tested.add(type(op).__name__)
-        try:
-            xs = rand_elem(op.domain, rng, True)
-        except Exception:
-            continue
-        for attr, d in derived_ops(op, xs):
-            dl = '{}.{}'.format(label, attr)
-            nt = check_instance(ctx, dl, d, rng, deep)
-            ctx.case(('zoo', dl) if nt else None)
-            ctx.hit('zoo-derived/' + type(d).__name__)
-            tested.add(type(d).__name__)
+        for lab, o, lev in reach(label, op, 2):
+            cname = type(o).__name__
+            if lev == 2 and not deep and cname in evaluated_cls:
+                continue    # quick tier: second level only for classes not seen yet
+            nt, ev = check_instance(ctx, lab, o, rng, deep)
+            n_inst += 1
+            ctx.case(('zoo', lab) if nt else None)
+            ctx.hit(('zoo/' if lev == 0 else 'zoo-derived{}/'.format(lev)) + cname)
+            if ev:
+                evaluated_cls.add(cname)
+            else:
+                n_never += 1
+                never_cls.add(cname)
     ctx.extra['not_constructible'] = not_constructible
-    ctx.extra['classes_tested'] = sorted(tested)
-    ctx.extra['modelled_classes'] = [
-        'Operator.__call__/__new__ dispatch', 'OperatorSum', 'OperatorVectorSum', 'OperatorComp',
-        'OperatorPointwiseProduct', 'OperatorLeftScalarMult', 'OperatorRightScalarMult',
-        'OperatorLeftVectorMult', 'OperatorRightVectorMult', 'FunctionalLeftVectorMult',
-        'ProductSpaceOperator', 'BroadcastOperator', 'ReductionOperator', 'DiagonalOperator',
-        'ComponentProjection', 'ComponentProjectionAdjoint', 'ScalingOperator', 'IdentityOperator',
-        'ConstantOperator', 'MultiplyOperator', 'PowerOperator', 'ZeroOperator',
-        'ComplexModulusSquared(real)', 'RealPart(real)', 'InnerProductOperator',
-        'all proximal classes of proximal_operators.py']
-    ctx.extra['opaque_leaf_classes'] = sorted(
-        t for t in tested if t not in ('OperatorSum', 'OperatorVectorSum', 'OperatorComp',
-                                       'OperatorPointwiseProduct', 'OperatorLeftScalarMult',
-                                       'OperatorRightScalarMult', 'OperatorLeftVectorMult',
-                                       'OperatorRightVectorMult', 'ScalingOperator',
-                                       'IdentityOperator', 'ConstantOperator', 'MultiplyOperator',
-                                       'PowerOperator', 'ZeroOperator'))
+    ctx.extra['instances_checked'] = n_inst
+    ctx.extra['instances_never_evaluated'] = n_never
+    ctx.extra['classes_tested'] = sorted(evaluated_cls)   # at least one successful op(x)
+    ctx.extra['classes_never_evaluated'] = sorted(never_cls - evaluated_cls)
+    ctx.extra['modelled_classes'] = ['Operator.__call__/__new__ dispatch'] + list(MODELLED) + [
+        'ComplexModulusSquared(real)', 'RealPart(real)',
+        'all proximal classes of proximal_operators.py (as program leaves)']
+    ctx.extra['opaque_leaf_classes'] = sorted(t for t in evaluated_cls if t not in MODELLED)
 
 
 # ---------------------------------------------------------------------------
 # dispatch stream: synthetic operators vs the model of __call__
 
-def make_synth(sig, ret, raw, fn, space):
+def make_synth(sig, ret, raw, fn, space, junk=0):
     import odl
     rng_space = odl.RealNumbers() if fn else space
 
     def oop_body(x):
         r = 2 * x + 1
+        if junk:
+            return 'junk'          # cannot be cast to the range
         if fn:
             return float(r[0])
         return r.asarray() if raw else r
@@ -756,27 +980,35 @@ def dispatch_cases(ctx):
                         continue  # rejected by Operator.__init__ (mandatory out for a functional)
                     if fn and raw:
                         continue
-                    for xk in ('in', 'cast', 'bad'):
+                    for xk in ('in', 'cast', 'nd', 'bad'):
                         for ok in ('none', 'in', 'foreign'):
                             n = rng.choice([1, 2, 3])
-                            yield dict(sig=sig, ret=ret, raw=raw, fn=fn, x=xk, out=ok, n=n,
+                            yield dict(sig=sig, ret=ret, raw=raw, fn=fn, x=xk, out=ok, n=n, junk=0,
                                        xv=[rng.randint(-16, 16) / 8.0 for _ in range(n)],
                                        yv=[rng.choice([7.0, -3.5, 100.0]) for _ in range(n)])
+    # an out-of-place body whose result cannot be cast to the range
+    for sig in ('oop', 'dual'):
+        for ok in ('none', 'in'):
+            n = rng.choice([1, 2, 3])
+            yield dict(sig=sig, ret='none', raw=0, fn=0, x='in', out=ok, n=n, junk=1,
+                       xv=[rng.randint(-16, 16) / 8.0 for _ in range(n)],
+                       yv=[7.0] * n)
 
 
-def run_dispatch(ctx):
+def run_dispatch(ctx, cases=None, model=True):
     import odl
     lines, pend = [], []
-    for c in dispatch_cases(ctx):
+    for c in (dispatch_cases(ctx) if cases is None else cases):
         space = odl.rn(c['n'])
         try:
-            op = make_synth(c['sig'], c['ret'], c['raw'], c['fn'], space)
+            op = make_synth(c['sig'], c['ret'], c['raw'], c['fn'], space, c.get('junk', 0))
         except Exception as e:  # noqa
             ctx.disagree(c, 'cannot construct synthetic operator: ' + str(e)[:100], 'n/a',
                          stream='dispatch')
             continue
         xel = space.element(c['xv'])
-        x = {'in': xel, 'cast': list(c['xv']), 'bad': 'not-an-element'}[c['x']]
+        xarr = np.array(c['xv'], dtype=float)
+        x = {'in': xel, 'cast': list(c['xv']), 'nd': xarr, 'bad': 'not-an-element'}[c['x']]
         if c['fn']:
             yel = 0.0
             foreign = odl.rn(17).one()
@@ -806,7 +1038,10 @@ def run_dispatch(ctx):
         if exp is not None and impl[0] != exp:
             ctx.violation('dispatch sig={sig} fn={fn} x={x} out={out}'.format(**c),
                           'expected {} got {}'.format(exp, o.status), dict(c, kind='dispatch'))
-        if exp is None and c['ret'] != 'other' and impl[0] != 'ok':
+        if c['x'] == 'nd' and not bitsame(xarr, np.array(c['xv'], dtype=float)):
+            ctx.violation('dispatch sig={sig} fn={fn} x={x} out={out}'.format(**c),
+                          'the ndarray passed as x was modified', dict(c, kind='dispatch'))
+        if exp is None and c['ret'] != 'other' and not c.get('junk') and impl[0] != 'ok':
             ctx.violation('dispatch sig={sig} fn={fn} x={x} out={out}'.format(**c),
                           'well-formed call failed: {}'.format(o.status), dict(c, kind='dispatch'))
         if impl[0] == 'ok' and not c['fn']:
@@ -818,15 +1053,20 @@ def run_dispatch(ctx):
             if c['out'] == 'in' and not impl[1]:
                 ctx.violation('dispatch sig={sig} fn={fn} x={x} out={out}'.format(**c),
                               'in-place call did not return out', dict(c, kind='dispatch'))
-        lines.append('dispatch sig={} ret={} raw={} fn={} x={} out={} n={} xv={} yv={}'.format(
-            c['sig'], c['ret'], c['raw'], c['fn'], c['x'], c['out'], c['n'], bl(c['xv']),
-            bl(c['yv'])))
+        # an ndarray is wrapped, not copied, by domain.element; the model's `castable` allocates
+        # a new object: observationally the same as long as no body writes its input
+        lines.append('dispatch sig={} ret={} raw={} fn={} junk={} x={} out={} n={} xv={} yv={}'
+                     .format(c['sig'], c['ret'], c['raw'], c['fn'], c.get('junk', 0),
+                             'cast' if c['x'] == 'nd' else c['x'], c['out'], c['n'], bl(c['xv']),
+                             bl(c['yv'])))
         pend.append((c, impl))
+    if not model:
+        return
     outs = core.run_driver('C03', lines)
     for (c, impl), ans in zip(pend, outs):
         nontrivial = impl[0] == 'ok'
-        ctx.case(('dispatch', c['sig'], c['ret'], c['raw'], c['fn'], c['x'], c['out'])
-                 if nontrivial else None,
+        ctx.case(('dispatch', c['sig'], c['ret'], c['raw'], c['fn'], c['x'], c['out'],
+                  c.get('junk', 0)) if nontrivial else None,
                  sample={'case': {k: c[k] for k in ('sig', 'ret', 'raw', 'fn', 'x', 'out')},
                          'impl': impl[0], 'model': ans[:40]} if len(ctx.samples) < 4 else None)
         ctx.hit('dispatch/{}/{}'.format(c['sig'], ans.split()[0]))
@@ -852,6 +1092,114 @@ def run_dispatch(ctx):
             if c['out'] != 'in' and not bitsame(parse_bl(f['y']), np.asarray(impl[4], dtype=float)):
                 ctx.disagree(c, 'y after={}'.format(impl[4]), 'y after={}'.format(parse_bl(f['y'])),
                              stream='dispatch')
+
+
+# ---------------------------------------------------------------------------
+# real operators from the wire tokens (the same tokens the Lean driver parses): a recorded
+# tree / block matrix can be rebuilt exactly by `replay`
+
+def unvec(tok):
+    return np.array([unbits(t) for t in tok.split('|')], dtype=float)
+
+
+def real_from_tokens(toks, data):
+    """Returns (operator, remaining tokens)."""
+    import odl
+    from odl.solvers.nonsmooth import proximal_operators as po
+    space = data['space']
+    tok, rest = toks[0], toks[1:]
+    parts = tok.split(':')
+    k = parts[0]
+
+    def two(cls):
+        a, r1 = real_from_tokens(rest, data)
+        b, r2 = real_from_tokens(r1, data)
+        return cls(a, b), r2
+
+    def one(mk):
+        a, r1 = real_from_tokens(rest, data)
+        return mk(a), r1
+    if k == 'S':
+        return two(odl.OperatorSum)
+    if k == 'C':
+        return two(odl.OperatorComp)
+    if k == 'P':
+        return two(odl.OperatorPointwiseProduct)
+    if k == 'V':
+        return one(lambda a: odl.OperatorVectorSum(a, space.element(unvec(parts[1]))))
+    if k == 'lv':
+        return one(lambda a: odl.OperatorLeftVectorMult(a, space.element(unvec(parts[1]))))
+    if k == 'rv':
+        return one(lambda a: odl.OperatorRightVectorMult(a, space.element(unvec(parts[1]))))
+    if k == 'fl':
+        return one(lambda a: odl.FunctionalLeftVectorMult(a, space.element(unvec(parts[1]))))
+    if k == 'l':
+        return one(lambda a: odl.OperatorLeftScalarMult(a, unbits(parts[1])))
+    if k == 'r':
+        return one(lambda a: odl.OperatorRightScalarMult(a, unbits(parts[1])))
+    if k == 'scal':
+        c = unbits(parts[1])
+        return (odl.IdentityOperator(space) if c == 1.0 else odl.ScalingOperator(space, c)), rest
+    if k == 'const':
+        return odl.ConstantOperator(space.element(unvec(parts[1]))), rest
+    if k == 'mult':
+        return odl.MultiplyOperator(space.element(unvec(parts[1]))), rest
+    if k == 'pow':
+        return odl.PowerOperator(space, unbits(parts[1])), rest
+    if k == 'zero':
+        return odl.ZeroOperator(space), rest
+    if k == 'modsq':
+        return odl.ComplexModulusSquared(space), rest
+    if k == 'real':
+        return odl.RealPart(space), rest
+    if k == 'inner':
+        return odl.InnerProductOperator(space.element(unvec(parts[1]))), rest
+    if k == 'fmult':
+        return odl.MultiplyOperator(space.element(unvec(parts[1])), domain=odl.RealNumbers()), rest
+    if k == 'prox':
+        name, fl = parts[1], parts[2]
+        lam, sigma = data['lam'], data['sigma']
+        g = space.element(np.array(data['g'], dtype=float))
+        sg = space.element(np.array(data['sig'], dtype=float))
+        if name == 'l1':
+            return po.proximal_l1(space, lam=lam, g=g if fl[1] == '1' else None)(
+                sg if fl[0] == '1' else sigma), rest
+        if name == 'ccL1':
+            return po.proximal_convex_conj_l1(space, lam=lam)(sigma), rest
+        if name == 'l2Sq':
+            return po.proximal_l2_squared(space, lam=lam, g=g)(sg if fl[0] == '1' else sigma), rest
+        if name == 'ccL2Sq':
+            return po.proximal_convex_conj_l2_squared(
+                space, lam=lam, g=g if fl[1] == '1' else None)(sg if fl[0] == '1' else sigma), rest
+        if name == 'box':
+            return po.proximal_box_constraint(
+                space, space.element(np.array(data['lo'], dtype=float)),
+                space.element(np.array(data['up'], dtype=float)))(sigma), rest
+        if name == 'ccKL':
+            return po.proximal_convex_conj_kl(space, lam=lam, g=g if fl == '1' else None)(sigma), rest
+        if name == 'huber':
+            return po.proximal_huber(space, data['gamma'])(sigma), rest
+        if name == 'linfty':
+            return po.proximal_linfty(space)(sigma), rest
+        if name == 'ccLinfty':
+            return po.proximal_convex_conj_linfty(space)(sigma), rest
+        if name == 'sumc':
+            return odl.solvers.IndicatorSumConstraint(space, data['radius']).proximal(sigma), rest
+        if name == 'simplex':
+            return odl.solvers.IndicatorSimplex(space, data['radius']).proximal(sigma), rest
+    raise KeyError(tok)
+
+
+def data_to_json(data):
+    return {k: (v.tolist() if isinstance(v, np.ndarray) else v) for k, v in data.items()
+            if k != 'space'}
+
+
+def data_from_json(d, n):
+    import odl
+    out = {k: (np.array(v, dtype=float) if isinstance(v, list) else v) for k, v in d.items()}
+    out['space'] = odl.rn(n)
+    return out
 
 
 # ---------------------------------------------------------------------------
@@ -985,6 +1333,68 @@ def rand_tree(rng, depth, n, data):
     return ['{}:{}'.format(k, bits(c))] + ta, (lambda: cls(ma(), c)), '{}({})'.format(k, sa)
 
 
+def eval_tree(ctx, case, lines, pend):
+    """Run one fully recorded tree case on the real code (oracle) and queue the model lines."""
+    n = case['n']
+    data = data_from_json(case['data'], n)
+    space = data['space']
+    toks = case['tokens'].split(',')
+    xv = np.array(case['x'], dtype=float)
+    yv = np.array(case['y'], dtype=float)
+    shape = case['shape']
+    try:
+        op, rest = real_from_tokens(toks, data)
+        assert not rest
+    except Exception as e:  # noqa
+        ctx.disagree(case, 'cannot build: {}: {}'.format(type(e).__name__, str(e)[:100]),
+                     'model tree exists', stream='tree')
+        return
+    res = {}
+    x = space.element(xv.copy())
+    res['oop'] = safe_call(op, x)
+    xa = {'oop': snapshot(x)}
+    x = space.element(xv.copy())
+    y = space.element(yv.copy())
+    res['ip'] = safe_call(op, x, out=y)
+    xa['ip'] = snapshot(x)
+    isout_ip = res['ip'].obj is y
+    x = space.element(xv.copy())
+    res['alias'] = safe_call(op, x, out=x)
+    xa['alias'] = snapshot(x)
+    isout_al = res['alias'].obj is x
+    key = 'tree {}'.format(shape[:120])
+    if res['oop'].status != 'ok':
+        # every tree is built from total leaves on finite input: a raise is inside the quantifier
+        ctx.violation(key + ' check=raises-on-valid-input', 'op(x) raises {}'.format(
+            res['oop'].status), case)
+    else:
+        if not bitsame(xa['oop'], xv):
+            ctx.violation(key + ' check=input-unchanged-oop', 'x modified by op(x)', case)
+        for mode, isout in (('ip', isout_ip), ('alias', isout_al)):
+            if res[mode].status != 'ok':
+                ctx.violation(key + ' check=' + mode, '{} call raises {}'.format(
+                    mode, res[mode].status), case)
+                continue
+            if not isout:
+                ctx.violation(key + ' check=returns-out', mode + ' call did not return out', case)
+            if not same(res[mode].val, res['oop'].val):
+                ctx.violation(key + ' check={}-equals-oop'.format(mode),
+                              '{} result {} differs from op(x) = {}'.format(
+                                  mode, res[mode].val[:6], res['oop'].val[:6]), case)
+        if res['ip'].status == 'ok' and not bitsame(xa['ip'], xv):
+            ctx.violation(key + ' check=input-unchanged-ip', 'x modified by op(x, out=y)', case)
+    if lines is None:
+        return
+    base = ('n={} t={} x={} y={} lam={} sigma={} gamma={} radius={} eps={} g={} sig={} lo={} '
+            'up={}').format(n, ','.join(toks), bl(xv), bl(yv), bits(data['lam']),
+                            bits(data['sigma']), bits(data['gamma']), bits(data['radius']),
+                            bits(EPS_CCL1),
+                            bl(data['g']), bl(data['sig']), bl(data['lo']), bl(data['up']))
+    for mode in ('oop', 'ip', 'alias'):
+        lines.append('tree mode={} {}'.format(mode, base))
+        pend.append((case, shape, mode, res[mode], xa[mode]))
+
+
 def run_trees(ctx, count):
     import odl
     rng = ctx.rng
@@ -998,58 +1408,15 @@ def run_trees(ctx, count):
                     sig=np.array([rng.choice([0.5, 1.0, 2.0]) for _ in range(n)]),
                     lo=np.array([rng.choice([-1.0, -0.5, 0.0]) for _ in range(n)]),
                     up=np.array([rng.choice([0.5, 1.0, 2.0]) for _ in range(n)]))
-        toks, mk, shape = rand_tree(rng, rng.choice([1, 2, 3, 4]), n, data)
+        toks, _mk, shape = rand_tree(rng, rng.choice([1, 2, 3, 4]), n, data)
         xv = np.array([rng.randint(-16, 16) / 8.0 for _ in range(n)])
         yv = np.array([(-1) ** k * (1234.5 + 1e5 * k) for k in range(n)])
         pre = rng.choice(['garbage', 'nan', 'inf'])
         if pre != 'garbage':
             yv = np.full(n, np.nan if pre == 'nan' else np.inf)
-        desc = {'kind': 'tree', 'tree': ','.join(toks)[:400], 'shape': shape[:200], 'n': n,
-                'x': xv.tolist()}
-        try:
-            op = mk()
-        except Exception as e:  # noqa
-            ctx.disagree(desc, 'cannot build: {}: {}'.format(type(e).__name__, str(e)[:100]),
-                         'model tree exists', stream='tree')
-            continue
-        res = {}
-        x = space.element(xv.copy())
-        res['oop'] = safe_call(op, x)
-        xa = {'oop': snapshot(x)}
-        x = space.element(xv.copy())
-        y = space.element(yv.copy())
-        res['ip'] = safe_call(op, x, out=y)
-        xa['ip'] = snapshot(x)
-        isout_ip = res['ip'].obj is y
-        x = space.element(xv.copy())
-        res['alias'] = safe_call(op, x, out=x)
-        xa['alias'] = snapshot(x)
-        isout_al = res['alias'].obj is x
-        # oracle
-        key = 'tree {}'.format(shape[:120])
-        if res['oop'].status == 'ok':
-            if not bitsame(xa['oop'], xv):
-                ctx.violation(key + ' check=input-unchanged-oop', 'x modified by op(x)', desc)
-            for mode, isout in (('ip', isout_ip), ('alias', isout_al)):
-                if res[mode].status != 'ok':
-                    ctx.violation(key + ' check=' + mode, '{} call raises {}'.format(
-                        mode, res[mode].status), desc)
-                    continue
-                if not isout:
-                    ctx.violation(key + ' check=returns-out', mode + ' call did not return out', desc)
-                if not same(res[mode].val, res['oop'].val):
-                    ctx.violation(key + ' check={}-equals-oop'.format(mode),
-                                  '{} result {} differs from op(x) = {}'.format(
-                                      mode, res[mode].val[:6], res['oop'].val[:6]), desc)
-            if res['ip'].status == 'ok' and not bitsame(xa['ip'], xv):
-                ctx.violation(key + ' check=input-unchanged-ip', 'x modified by op(x, out=y)', desc)
-        base = ('n={} t={} x={} y={} lam={} sigma={} gamma={} radius={} eps=0 g={} sig={} lo={} '
-                'up={}').format(n, ','.join(toks), bl(xv), bl(yv), bits(data['lam']),
-                                bits(data['sigma']), bits(data['gamma']), bits(data['radius']),
-                                bl(data['g']), bl(data['sig']), bl(data['lo']), bl(data['up']))
-        for mode in ('oop', 'ip', 'alias'):
-            lines.append('tree mode={} {}'.format(mode, base))
-            pend.append((desc, shape, mode, res[mode], xa[mode]))
+        case = {'kind': 'tree', 'tokens': ','.join(toks), 'shape': shape[:200], 'n': n,
+                'data': data_to_json(data), 'x': xv.tolist(), 'y': yv.tolist()}
+        eval_tree(ctx, case, lines, pend)
     outs = core.run_driver('C03', lines)
     for (desc, shape, mode, r, xafter), ans in zip(pend, outs):
         d = dict(desc, mode=mode)
@@ -1058,9 +1425,8 @@ def run_trees(ctx, count):
                  sample={'tree': shape, 'mode': mode, 'x': desc['x'],
                          'result': r.val.tolist() if r.status == 'ok' else r.status}
                  if desc['n'] <= 2 and len(ctx.samples) < 10 else None)
-        for t in set(desc['tree'].replace(':', ',').split(',')):
-            if t in ('S', 'C', 'P', 'V', 'l', 'r', 'lv', 'rv', 'fl', 'scal', 'const', 'mult', 'pow',
-                     'zero', 'modsq', 'prox', 'real', 'inner', 'fmult'):
+        for t in set(desc['tokens'].replace(':', ',').split(',')):
+            if t in TREE_BRANCHES:
                 ctx.hit('tree/' + t)
         if r.status != 'ok':
             if not ans.startswith(':'.join(r.status.split(':')[:2])):
@@ -1070,17 +1436,139 @@ def run_trees(ctx, count):
             ctx.disagree(d, 'ok', ans[:100], stream='tree')
             continue
         f = dict(t.split('=', 1) for t in ans.split()[1:])
-        if not same(parse_bl(f['val']), r.val):
+        if not same_exact(parse_bl(f['val']), r.val):
             ctx.disagree(d, 'val={}'.format(r.val[:6]), 'val={}'.format(parse_bl(f['val'])[:6]),
                          stream='tree')
-        elif not same(parse_bl(f['x']), xafter):
+        elif not same_exact(parse_bl(f['x']), xafter):
             ctx.disagree(d, 'x after={}'.format(xafter[:6]),
                          'x after={}'.format(parse_bl(f['x'])[:6]), stream='tree')
+
+
+TREE_BRANCHES = ('S', 'C', 'P', 'V', 'l', 'r', 'lv', 'rv', 'fl', 'scal', 'const', 'mult', 'pow', 'zero',
+                 'modsq', 'prox', 'real', 'inner', 'fmult')
+
+
+EPS_CCL1 = float(np.finfo(float).resolution * 10)
+
+
+def same_exact(a, b):
+    """Model vs code on the tree / product streams: relative 1e-12 (NaN == NaN). Not bitwise:
+    after a division the values are no longer dyadic and NumPy's dot / pairwise summation may
+    round in another order than the model's sequential sums; a leaked junk value (NaN, inf,
+    >= 1e2) is far above this tolerance."""
+    return same(a, b, rtol=1e-12)
 
 
 # ---------------------------------------------------------------------------
 # product-space stream: ProductSpaceOperator / Broadcast / Reduction / Diagonal /
 # ComponentProjection(+Adjoint) vs the model
+
+def build_pso(case, data):
+    """Real product-space operator of a recorded case: (op, m, nc, entries string)."""
+    import odl
+    space = data['space']
+    kind, m, nc, idx = case['class'], case['m'], case['nc'], case['idx']
+    blocks = {(i, j): real_from_tokens(t.split(','), data)[0] for i, j, t in case['blocks']}
+    if kind == 'pso':
+        mat = [[blocks.get((i, j)) for j in range(nc)] for i in range(m)]
+        op = odl.ProductSpaceOperator(mat, domain=odl.ProductSpace(space, nc),
+                                      range=odl.ProductSpace(space, m))
+        coo = op.ops
+    elif kind == 'bcast':
+        op = odl.BroadcastOperator(*[blocks[(i, 0)] for i in range(m)])
+        coo = op.prod_op.ops
+    elif kind == 'red':
+        op = odl.ReductionOperator(*[blocks[(0, j)] for j in range(nc)])
+        coo = op.prod_op.ops
+    elif kind == 'diag':
+        op = odl.DiagonalOperator(*[blocks[(i, i)] for i in range(m)])
+        coo = op.ops
+    elif kind == 'proj':
+        op, coo = odl.ComponentProjection(odl.ProductSpace(space, nc), idx), None
+    else:
+        op, coo = odl.ComponentProjectionAdjoint(odl.ProductSpace(space, m), idx), None
+    toks = {(i, j): t for i, j, t in case['blocks']}
+    if coo is not None:
+        # the model receives the blocks in the order of the real COO storage
+        order = list(zip([int(t) for t in coo.row], [int(t) for t in coo.col]))
+        entries = '@'.join('{}~{}~{}'.format(i, j, toks[(i, j)]) for i, j in order) or '-'
+    else:
+        entries = '-'
+    return op, entries
+
+
+def eval_pso(ctx, case, lines, pend):
+    n, m, nc, kind, pre = case['n'], case['m'], case['nc'], case['class'], case['prefill']
+    data = data_from_json(case['data'], n)
+    space = data['space']
+    shape = case['shape']
+    try:
+        op, entries = build_pso(case, data)
+    except Exception as e:  # noqa
+        ctx.disagree(case, 'cannot build: {}: {}'.format(type(e).__name__, str(e)[:100]),
+                     'model exists', stream='pso')
+        return
+    xs = [np.array(v, dtype=float) for v in case['x']]
+    ys = [np.array(v, dtype=float) for v in case['y']]
+    x_single = kind in ('bcast', 'projadj')
+    y_single = kind in ('red', 'proj')
+
+    def mkx():
+        return space.element(xs[0].copy()) if x_single else \
+            op.domain.element([v.copy() for v in xs])
+
+    def mky():
+        return space.element(ys[0].copy()) if y_single else \
+            op.range.element([v.copy() for v in ys])
+    res, xa = {}, {}
+    x = mkx()
+    res['oop'] = safe_call(op, x)
+    xa['oop'] = snapshot(x)
+    x = mkx()
+    y = mky()
+    res['ip'] = safe_call(op, x, out=y)
+    xa['ip'] = snapshot(x)
+    ret_ok = {'ip': res['ip'].obj is y}
+    modes = ['oop', 'ip']
+    if kind == 'diag':
+        x = mkx()
+        res['alias'] = safe_call(op, x, out=x)
+        xa['alias'] = None
+        ret_ok['alias'] = res['alias'].obj is x
+        modes.append('alias')
+    key = 'pso {}'.format(shape[:120])
+    x0 = np.concatenate(xs)
+    if res['oop'].status != 'ok':
+        ctx.violation(key + ' check=raises-on-valid-input', 'op(x) raises {}'.format(
+            res['oop'].status), case)
+    else:
+        if not bitsame(xa['oop'], x0):
+            ctx.violation(key + ' check=input-unchanged-oop', 'x modified by op(x)', case)
+        for mode in modes[1:]:
+            if res[mode].status != 'ok':
+                ctx.violation(key + ' check=' + mode, '{} call raises {}'.format(
+                    mode, res[mode].status), case)
+                continue
+            if not ret_ok[mode]:
+                ctx.violation(key + ' check=returns-out', mode + ' call did not return out', case)
+            if not same(res[mode].val, res['oop'].val):
+                ctx.violation(key + ' check={}-equals-oop prefill={}'.format(mode, pre),
+                              '{} result {} differs from op(x) = {}'.format(
+                                  mode, res[mode].val[:8], res['oop'].val[:8]), case)
+        if res['ip'].status == 'ok' and not bitsame(xa['ip'], x0):
+            ctx.violation(key + ' check=input-unchanged-ip', 'x modified by op(x, out=y)', case)
+    if lines is None:
+        return
+    base = ('kind={} m={} nc={} n={} idx={} entries={} x={} y={} lam={} sigma={} gamma={} '
+            'radius={} eps={} g={} sig={} lo={} up={}').format(
+        kind, m, nc, n, case['idx'], entries, ';'.join(bl(v) for v in xs),
+        ';'.join(bl(v) for v in ys), bits(data['lam']), bits(data['sigma']), bits(data['gamma']),
+        bits(data['radius']), bits(EPS_CCL1), bl(data['g']), bl(data['sig']), bl(data['lo']),
+        bl(data['up']))
+    for mode in modes:
+        lines.append('pso mode={} {}'.format(mode, base))
+        pend.append((case, shape, mode, res[mode], xa[mode]))
+
 
 def run_pso(ctx, count):
     import odl
@@ -1096,121 +1584,41 @@ def run_pso(ctx, count):
                     lo=np.array([rng.choice([-1.0, -0.5, 0.0]) for _ in range(n)]),
                     up=np.array([rng.choice([0.5, 1.0, 2.0]) for _ in range(n)]))
         kind = rng.choice(['pso', 'pso', 'bcast', 'red', 'diag', 'diag', 'proj', 'projadj'])
-        blocks = {}
         idx = 0
 
         def block():
-            return rand_tree(rng, rng.choice([0, 1, 2]), n, data)
-        try:
-            if kind == 'pso':
-                m, nc = rng.choice([1, 2, 3]), rng.choice([1, 2, 3])
-                for i in range(m):
-                    for j in range(nc):
-                        if rng.random() < 0.55:
-                            blocks[(i, j)] = block()
-                if not blocks:
-                    blocks[(0, 0)] = block()
-                mat = [[blocks[(i, j)][1]() if (i, j) in blocks else None for j in range(nc)]
-                       for i in range(m)]
-                op = odl.ProductSpaceOperator(mat, domain=odl.ProductSpace(space, nc),
-                                              range=odl.ProductSpace(space, m))
-                coo = op.ops
-            elif kind in ('bcast', 'red', 'diag'):
-                k = rng.choice([1, 2, 3])
-                bl_ = [block() for _ in range(k)]
-                ops = [b[1]() for b in bl_]
-                if kind == 'bcast':
-                    op, m, nc = odl.BroadcastOperator(*ops), k, 1
-                    blocks = {(i, 0): bl_[i] for i in range(k)}
-                    coo = op.prod_op.ops
-                elif kind == 'red':
-                    op, m, nc = odl.ReductionOperator(*ops), 1, k
-                    blocks = {(0, j): bl_[j] for j in range(k)}
-                    coo = op.prod_op.ops
-                else:
-                    op, m, nc = odl.DiagonalOperator(*ops), k, k
-                    blocks = {(i, i): bl_[i] for i in range(k)}
-                    coo = op.ops
-            elif kind == 'proj':
-                m, nc = 1, rng.choice([1, 2, 3])
-                idx = rng.randrange(nc)
-                op = odl.ComponentProjection(odl.ProductSpace(space, nc), idx)
-                coo = None
-            else:
-                m, nc = rng.choice([1, 2, 3]), 1
-                idx = rng.randrange(m)
-                op = odl.ComponentProjectionAdjoint(odl.ProductSpace(space, m), idx)
-                coo = None
-        except Exception as e:  # noqa
-            ctx.disagree({'kind': 'pso', 'class': kind}, 'cannot build: {}: {}'.format(
-                type(e).__name__, str(e)[:100]), 'model exists', stream='pso')
-            continue
-        if coo is not None:
-            order = list(zip([int(t) for t in coo.row], [int(t) for t in coo.col]))
-            entries = '@'.join('{}~{}~{}'.format(i, j, ','.join(blocks[(i, j)][0]))
-                               for i, j in order) or '-'
-            shape = '{}[{}]'.format(kind, ';'.join('{}{}:{}'.format(i, j, blocks[(i, j)][2])
-                                                   for i, j in order))
+            toks, _mk, sh = rand_tree(rng, rng.choice([0, 1, 2]), n, data)
+            return ','.join(toks), sh
+        blocks = {}
+        if kind == 'pso':
+            m, nc = rng.choice([1, 2, 3]), rng.choice([1, 2, 3])
+            for i in range(m):
+                for j in range(nc):
+                    if rng.random() < 0.55:
+                        blocks[(i, j)] = block()
+            if not blocks:
+                blocks[(0, 0)] = block()
+        elif kind in ('bcast', 'red', 'diag'):
+            k = rng.choice([1, 2, 3])
+            m, nc = {'bcast': (k, 1), 'red': (1, k), 'diag': (k, k)}[kind]
+            for t in range(k):
+                blocks[{'bcast': (t, 0), 'red': (0, t), 'diag': (t, t)}[kind]] = block()
+        elif kind == 'proj':
+            m, nc = 1, rng.choice([1, 2, 3])
+            idx = rng.randrange(nc)
         else:
-            entries, shape = '-', '{}[{}]'.format(kind, idx)
-        xs = [np.array([rng.randint(-16, 16) / 8.0 for _ in range(n)]) for _ in range(nc)]
+            m, nc = rng.choice([1, 2, 3]), 1
+            idx = rng.randrange(m)
+        shape = '{}[{}]'.format(kind, ';'.join('{}{}:{}'.format(i, j, blocks[(i, j)][1])
+                                               for i, j in sorted(blocks)) or idx)
         pre = rng.choice(['garbage', 'nan', 'inf'])
-        ys = [np.full(n, {'garbage': 777.25 + i, 'nan': np.nan, 'inf': np.inf}[pre])
-              for i in range(m)]
-        x_single = kind in ('bcast', 'projadj')
-        y_single = kind in ('red', 'proj')
-
-        def mkx():
-            return space.element(xs[0].copy()) if x_single else \
-                op.domain.element([v.copy() for v in xs])
-
-        def mky():
-            return space.element(ys[0].copy()) if y_single else \
-                op.range.element([v.copy() for v in ys])
-        desc = {'kind': 'pso', 'class': kind, 'shape': shape[:300], 'n': n, 'm': m, 'nc': nc,
-                'x': [v.tolist() for v in xs], 'prefill': pre}
-        res, xa = {}, {}
-        x = mkx()
-        res['oop'] = safe_call(op, x)
-        xa['oop'] = snapshot(x)
-        x = mkx()
-        y = mky()
-        res['ip'] = safe_call(op, x, out=y)
-        xa['ip'] = snapshot(x)
-        ret_ok = {'ip': res['ip'].obj is y}
-        modes = ['oop', 'ip']
-        if kind == 'diag':
-            x = mkx()
-            res['alias'] = safe_call(op, x, out=x)
-            xa['alias'] = None
-            ret_ok['alias'] = res['alias'].obj is x
-            modes.append('alias')
-        key = 'pso {}'.format(shape[:120])
-        x0 = np.concatenate(xs)
-        if res['oop'].status == 'ok':
-            if not bitsame(xa['oop'], x0):
-                ctx.violation(key + ' check=input-unchanged-oop', 'x modified by op(x)', desc)
-            for mode in modes[1:]:
-                if res[mode].status != 'ok':
-                    ctx.violation(key + ' check=' + mode, '{} call raises {}'.format(
-                        mode, res[mode].status), desc)
-                    continue
-                if not ret_ok[mode]:
-                    ctx.violation(key + ' check=returns-out', mode + ' call did not return out', desc)
-                if not same(res[mode].val, res['oop'].val):
-                    ctx.violation(key + ' check={}-equals-oop prefill={}'.format(mode, pre),
-                                  '{} result {} differs from op(x) = {}'.format(
-                                      mode, res[mode].val[:8], res['oop'].val[:8]), desc)
-            if res['ip'].status == 'ok' and not bitsame(xa['ip'], x0):
-                ctx.violation(key + ' check=input-unchanged-ip', 'x modified by op(x, out=y)', desc)
-        base = ('kind={} m={} nc={} n={} idx={} entries={} x={} y={} lam={} sigma={} gamma={} '
-                'radius={} eps=0 g={} sig={} lo={} up={}').format(
-            kind, m, nc, n, idx, entries, ';'.join(bl(v) for v in xs), ';'.join(bl(v) for v in ys),
-            bits(data['lam']), bits(data['sigma']), bits(data['gamma']), bits(data['radius']),
-            bl(data['g']), bl(data['sig']), bl(data['lo']), bl(data['up']))
-        for mode in modes:
-            lines.append('pso mode={} {}'.format(mode, base))
-            pend.append((desc, shape, mode, res[mode], xa[mode]))
+        case = {'kind': 'pso', 'class': kind, 'shape': shape[:300], 'n': n, 'm': m, 'nc': nc,
+                'idx': idx, 'prefill': pre, 'data': data_to_json(data),
+                'blocks': [[i, j, blocks[(i, j)][0]] for i, j in sorted(blocks)],
+                'x': [[rng.randint(-16, 16) / 8.0 for _ in range(n)] for _ in range(nc)],
+                'y': [[{'garbage': 777.25 + i, 'nan': float('nan'), 'inf': float('inf')}[pre]] * n
+                      for i in range(m)]}
+        eval_pso(ctx, case, lines, pend)
     outs = core.run_driver('C03', lines)
     for (desc, shape, mode, r, xafter), ans in zip(pend, outs):
         d = dict(desc, mode=mode)
@@ -1229,13 +1637,33 @@ def run_pso(ctx, count):
             continue
         f = dict(t.split('=', 1) for t in ans.split()[1:])
         mv = np.concatenate([parse_bl(t) for t in f['vals'].split(';')])
-        if not same(mv, r.val):
+        if not same_exact(mv, r.val):
             ctx.disagree(d, 'val={}'.format(r.val[:8]), 'val={}'.format(mv[:8]), stream='pso')
         elif xafter is not None:
             mx = np.concatenate([parse_bl(t) for t in f['x'].split(';')])
-            if not same(mx, xafter):
+            if not same_exact(mx, xafter):
                 ctx.disagree(d, 'x after={}'.format(xafter[:8]), 'x after={}'.format(mx[:8]),
                              stream='pso')
+
+
+EXPECTED_BRANCHES = (
+    ['tree/' + t for t in TREE_BRANCHES] +
+    ['pso/{}/{}'.format(k, m) for k in ('pso', 'bcast', 'red', 'proj', 'projadj')
+     for m in ('oop', 'ip')] + ['pso/diag/' + m for m in ('oop', 'ip', 'alias')] +
+    ['dispatch/oop/' + o for o in ('ok', 'err:domain', 'err:range', 'err:type', 'err:value')] +
+    ['dispatch/ip/' + o for o in ('ok', 'err:domain', 'err:range', 'err:value')] +
+    ['dispatch/dual/' + o for o in ('ok', 'err:domain', 'err:range', 'err:type', 'err:value')])
+
+
+def report_unhit(ctx):
+    """DESIGN 7.4: a model branch never exercised by the correspondence is reported and fails
+    the thorough tier."""
+    unhit = [b for b in EXPECTED_BRANCHES if not ctx.branches.get(b)]
+    ctx.extra['unhit_model_branches'] = unhit
+    if unhit and not ctx.quick:
+        ctx.disagree({'kind': 'unhit-model-branch', 'branches': unhit},
+                     'never generated in this run', 'model branch exists',
+                     stream='unhit-model-branch')
 
 
 def run(ctx):
@@ -1246,8 +1674,9 @@ def run(ctx):
     run_pso(ctx, 120 if ctx.quick else 2500)
     run_zoo(ctx, deep=not ctx.quick)
     if not ctx.quick:
-        for _ in range(3):   # further input draws for every instance
+        for _ in range(2):   # further input draws for every instance
             run_zoo(ctx, deep=True)
+    report_unhit(ctx)
 
 
 def search(ctx, broken):
@@ -1263,45 +1692,36 @@ def replay(ctx, case):
     import random
     if case.get('kind') == 'zoo':
         base = case['label'].split('.')[0]
-        for name, vname, thunk in zoo_instances(ctx):
+        for name, vname, thunk in all_instances(Ctx2()):
             if '{}[{}]'.format(name, vname) != base:
                 continue
             try:
                 op = thunk()
             except Exception:
                 return None
-            sub = Ctx2()
-            rng = random.Random(1)
-            ops = [(base, op)]
-            try:
-                xs = rand_elem(op.domain, rng, True)
-                ops += [('{}.{}'.format(base, a), d) for a, d in derived_ops(op, xs)]
-            except Exception:
-                pass
-            for lab, o in ops:
-                if lab == case['label']:
-                    for seed in range(6):
-                        check_instance(sub, lab, o, random.Random(seed), True)
-            hits = [v for v in sub.violations if v['key'].endswith('check=' + case['check'])]
-            return hits[0]['what'] if hits else None
+            for lab, o, lev in reach(base, op, 2):
+                if lab != case['label']:
+                    continue
+                sub = Ctx2()
+                fixed = {'x': case['x']} if isinstance(case.get('x'), dict) else None
+                # the recorded input (checks that need no input, e.g. malformed-x, have none);
+                # the random parts of the oracle (prefill values, wrapper vectors) are redrawn
+                for seed in range(3):
+                    check_instance(sub, lab, o, random.Random(seed), True, fixed=fixed)
+                hits = [v for v in sub.violations if v['key'].endswith('check=' + case['check'])]
+                return hits[0]['what'] if hits else None
         return None
     if case.get('kind') == 'dispatch':
         sub = Ctx2()
-        sub.rng = random.Random(0)
-        run_dispatch(sub)
-        hits = [v for v in sub.violations
-                if all(v['replay'].get(k) == case.get(k) for k in ('sig', 'fn', 'x', 'out'))]
-        return hits[0]['what'] if hits else None
+        run_dispatch(sub, cases=[{k: v for k, v in case.items() if k != 'kind'}], model=False)
+        return sub.violations[0]['what'] if sub.violations else None
     if case.get('kind') == 'pso':
         sub = Ctx2()
-        sub.rng = random.Random(0)
-        run_pso(sub, 400)
-        hits = [v for v in sub.violations if v['replay'].get('class') == case.get('class')]
-        return hits[0]['what'] if hits else None
+        eval_pso(sub, case, None, None)
+        return sub.violations[0]['what'] if sub.violations else None
     if case.get('kind') == 'tree':
         sub = Ctx2()
-        sub.rng = random.Random(0)
-        run_trees(sub, 600)
+        eval_tree(sub, case, None, None)
         return sub.violations[0]['what'] if sub.violations else None
     return None
 
